@@ -14,19 +14,24 @@ WindowOK(e, rs, idx) ==
 Consume ==
   /\ l <= Len(Trace) /\ l' = l + 1 /\ UNCHANGED <<nOps, before>>
   /\ LET e == Trace[l] IN
-     IF e.ev = "reset" THEN tr' = e.beh /\ recs' = <<>> /\ index' = 0 /\ persisted' = 0 /\ countdown' = Flush /\ bad' = bad
+     IF e.ev = "reset" THEN tr' = e.beh /\ recs' = <<>> /\ index' = 0 /\ persisted' = 0 /\ countdown' = Flush /\ fails' = 0 /\ bad' = bad
      ELSE
        /\ CASE e.ev = "Record" -> /\ recs' = IF Len(recs) = Cap THEN Append(Tail(recs), index) ELSE Append(recs, index)
                                   /\ index' = index + 1
-                                  /\ IF countdown = 1 THEN persisted' = index + 1 /\ countdown' = Flush ELSE UNCHANGED persisted /\ countdown' = countdown - 1
-            [] e.ev = "Reset"  -> recs' = <<>> /\ index' = e.i /\ persisted' = e.i /\ countdown' = Flush
-            [] e.ev = "Restart" -> recs' = <<>> /\ index' = e.index /\ countdown' = Flush /\ UNCHANGED persisted   \* follow the real index
-            [] OTHER -> UNCHANGED <<recs, index, persisted, countdown>>
+                                  \* e.pfail: the harness made the write of the index fail in this step (it is attempted only when due)
+                                  /\ IF countdown = 1
+                                       THEN /\ countdown' = Flush
+                                            /\ IF e.pfail THEN UNCHANGED persisted /\ fails' = fails + 1 ELSE persisted' = index + 1 /\ fails' = 0
+                                       ELSE UNCHANGED <<persisted, fails>> /\ countdown' = countdown - 1
+            [] e.ev = "Reset"  -> recs' = <<>> /\ index' = e.i /\ persisted' = e.i /\ countdown' = Flush /\ fails' = 0
+            [] e.ev = "Restart" -> recs' = <<>> /\ index' = e.index /\ countdown' = Flush /\ fails' = 0 /\ UNCHANGED persisted   \* follow the real index
+            [] OTHER -> UNCHANGED <<recs, index, persisted, countdown, fails>>
        /\ tr' = tr
        /\ bad' = bad \cup {<<tr, c, l>> : c \in
             (IF e.ev # "Restart" /\ e.index # index' THEN {"NextIndex"} ELSE {}) \cup
             (IF ~WindowOK(e, recs', index') THEN {"WindowExact"} ELSE {}) \cup
-            (IF e.ev = "Restart" /\ e.index < e.before - Flush THEN {"RestartNotFarBack"} ELSE {}) \cup
+            (IF e.ev = "Restart" /\ e.index < e.before - Flush * (fails + 1) THEN {"RestartNotFarBack"} ELSE {}) \cup
+            (IF e.ev = "Record" /\ e.pfail /\ countdown # 1 THEN {"INFO-WriteNotDue"} ELSE {}) \cup
             (IF e.ev = "Restart" /\ e.index # persisted THEN {"INFO-RestartIndexDiffersFromModel"} ELSE {})}
 TSpec == TInit /\ [][Consume]_<<vars, tvars>>
 HW == IF l > TLCGet(1) THEN TLCSet(1, l) /\ TLCSet(2, bad) ELSE TRUE
